@@ -1,4 +1,5 @@
 import LunarVerif.Model.C04
+import LunarVerif.Model.FlowGraphRef
 /-
 Property C04 as a REFERENCE INTERPRETER over the YAML connection lists (no built graph, no
 de-duplicated edge lists, no root pointer), and the decidable predicate the judge evaluates on the
@@ -209,11 +210,14 @@ def holds (c : SCfg) (o : Oracle) (d : Dir) (fuel : Nat) (observed : List Event)
   observed == s.trace && err == s.err
 
 /-- the part of a trace an observer of the real engine can see: flow entries, and processor
-    executions of the flows in `users` (system-flow processors are the real quota processors) -/
+    executions of the flows in `users` (system-flow processors are the real quota processors); a processor
+    reports its own instance name, i.e. `key` for a node `otherFlow.key` borrowed from another flow -/
 def observable (users : List String) (t : List Event) : List Event :=
-  t.filter fun
+  (t.filter fun
     | .enter _ _ => true
-    | .exec f _ _ _ => users.contains f
+    | .exec f _ _ _ => users.contains f).map fun
+    | .enter f d => .enter f d
+    | .exec f k d o => .exec f (bareKey k) d o
 
 /-- `holds` restricted to what is observable -/
 def holdsObs (c : SCfg) (users : List String) (o : Oracle) (d : Dir) (fuel : Nat) (observed : List Event)
